@@ -143,6 +143,7 @@ def _ref_keyed(t, a, p):
 
 
 _op('keyed', _real_keyed, _ref_keyed)      # max/min/argmax/argmin/sorted/min_max with key=neg (an order unlike the natural one)
+_op('convert_int', lambda c, a, p: [c.rt.convert(a[0], c.rt.SecInt(p['l']))], lambda t, a, p: [a[0]])     # to another length (C18)
 _op('if_else', lambda c, a, p: [a[0].if_else(a[1], a[2])], lambda t, a, p: [a[1] if a[0] else a[2]])
 _op('if_else_rt', lambda c, a, p: [c.rt.if_else(a[0], a[1], a[2])],
     lambda t, a, p: [a[1] if a[0] else a[2]])
